@@ -89,7 +89,9 @@ class Facts:
 
     def _invalidate(self, st: ast.AST, env: dict) -> None:
         """Forget non-local atoms that executing *st* may change."""
-        nonlocal_atoms = [a for a in env if ('(' in a or '.' in a) and not (a in self.sticky_true and env[a] in TRUTHY)]
+        if isinstance(st, (ast.FunctionDef, ast.AsyncFunctionDef, ast.ClassDef)):
+            return  # a definition executes none of its body
+        nonlocal_atoms = [a for a in env if ('(' in a or '.' in a) and not (a in self.sticky_true and env[a] in TRUTHY) and not self._init_only(a)]
         if self.taskvars:
             tv = [a for a in nonlocal_atoms if a.endswith('.get()') and a[:-6] in self.taskvars]
             if tv:
